@@ -374,6 +374,7 @@ func runOne(world, prop string, seed uint64, rp *Replay) *Result {
 			simnet.Install(rc.Net)
 			rc.Sched = &simrt.Sched{}
 			simrt.Install(rc.Sched)
+			simos.Yield = simrt.Y
 			rc.Reseed(-1)
 			defer func() {
 				for i := len(rc.cleanup) - 1; i >= 0; i-- {
@@ -382,6 +383,7 @@ func runOne(world, prop string, seed uint64, rp *Replay) *Result {
 				simrt.Install(nil)
 				simnet.Install(nil)
 				simos.Install(nil)
+				simos.Yield = nil
 				runtime.VerifSimSeed(0)
 				simElapsed = time.Since(rc.start)
 			}()
